@@ -440,6 +440,7 @@ impl<'a> Explorer<'a> {
             }
             Op::AcqFinish | Op::AcqDrop if !(ts.acq.is_some() && ts.acq_kept) => Some(SKIP),
             Op::EvWait(_) if !is_async => Some(SKIP),
+            Op::EvWaitThen(_, lock, obj) if !is_async || (*lock && ts.held_m & bit(*obj) != 0) || (!*lock && (ts.rx & bit(*obj) == 0 || matches!(self.prog.objs.chans[*obj], ChanKind::Bounded(0)))) => Some(SKIP),
             _ => None,
         };
         match obs {
@@ -1308,6 +1309,63 @@ impl<'a> Explorer<'a> {
                     }
                     _ => {
                         if s.evs[*e].set {
+                            self.done(&mut n, t, 1);
+                        } else {
+                            n.tasks[t].micro = 0;
+                            Self::pending(&mut n, t);
+                        }
+                        one(n)
+                    }
+                }
+            }
+            Op::EvWaitThen(e, lock, obj) => {
+                let rendezvous = !*lock && matches!(self.prog.objs.chans[*obj], ChanKind::Bounded(0));
+                if !self.is_async(t) || (*lock && ts.held_m & bit(*obj) != 0 && ts.micro < 4) || (!*lock && (ts.rx & bit(*obj) == 0 || rendezvous)) {
+                    self.done(&mut n, t, SKIP);
+                    return one(n);
+                }
+                // micro: 0 register, 1 read flag, 2/3 blocking part (flag was set / unset), 4/5 unlock
+                match ts.micro {
+                    0 => {
+                        n.evs[*e].registered |= bit(t);
+                        n.tasks[t].micro = 1;
+                        one(n)
+                    }
+                    1 => {
+                        n.tasks[t].micro = if s.evs[*e].set { 2 } else { 3 };
+                        one(n)
+                    }
+                    m @ (2 | 3) => {
+                        if *lock {
+                            if s.mutexes[*obj].holder.is_some() {
+                                return vec![];
+                            }
+                            n.mutexes[*obj].holder = Some(me);
+                            n.tasks[t].held_m |= bit(*obj);
+                            n.tasks[t].micro = m + 2;
+                            one(n)
+                        } else {
+                            let ch = &s.chans[*obj];
+                            if ch.buf.is_empty() && ch.senders > 0 {
+                                return vec![];
+                            }
+                            if !ch.buf.is_empty() {
+                                n.chans[*obj].buf.remove(0);
+                            }
+                            if m == 2 {
+                                self.done(&mut n, t, 1);
+                            } else {
+                                n.tasks[t].micro = 0;
+                                Self::pending(&mut n, t);
+                            }
+                            one(n)
+                        }
+                    }
+                    m => {
+                        // release the mutex again, then finish the poll
+                        n.mutexes[*obj].holder = None;
+                        n.tasks[t].held_m &= !bit(*obj);
+                        if m == 4 {
                             self.done(&mut n, t, 1);
                         } else {
                             n.tasks[t].micro = 0;
